@@ -119,8 +119,13 @@ def gen_program(rng, h, le, asz, n):
             raw += bytes([0]) + _uleb(1 + len(body)) + bytes([3]) + body
             ins.append((k,))
         elif k == 'unknown_ext':
-            body = bytes(rng.randrange(256) for _ in range(rng.randrange(0, 5)))
-            raw += bytes([0]) + _uleb(1 + len(body)) + bytes([0x80 + rng.randrange(0, 16)]) + body
+            # an unknown extended opcode is skipped by its length: short bodies, bodies that need a two-byte length, and
+            # (legal) lengths written as padded ULEB128 numbers
+            body = bytes(rng.randrange(256) for _ in range(rng.choice([0, 1, 2, 3, 4, 130, 200])))
+            ln = _uleb(1 + len(body))
+            if rng.random() < 0.25:
+                ln = ln[:-1] + bytes([ln[-1] | 0x80, 0x00])
+            raw += bytes([0]) + ln + bytes([0x80 + rng.randrange(0, 16)]) + body
             ins.append((k,))
         elif k == 'unknown_std':
             op = rng.randrange(13, h['opcode_base'])
@@ -180,6 +185,13 @@ def gen_unit(rng, le, fmt, asz, version):
         if rng.random() < 0.35:
             fmt_fields.append((0x2001, rng.choice([0x08, 0x0e, 0x1f])))   # a vendor string content type (DW_LNCT_LLVM_source): resolved like a path
         rng.shuffle(fmt_fields)
+        if rng.random() < 0.3:
+            # entry formats that agree in their FORMS and differ in the content types the forms carry: the path first, then
+            # directory index, timestamp and size in any order, all as DW_FORM_udata (what an entry means is decided by the
+            # content type code, never by the form)
+            nums = [(2, 0x0f), (3, 0x0f), (4, 0x0f)]
+            rng.shuffle(nums)
+            fmt_fields = [(1, 0x1f)] + nums
         rest += bytes([len(fmt_fields)]) + b''.join(_uleb(c) + _uleb(f) for c, f in fmt_fields)
         ents = b''
         for f in files:
